@@ -1281,3 +1281,74 @@ Example ex_broadcast_error :
   get_emodulus ex_tri ex_delta ex_eta ex_lut ex_setup (MTempArray [23; 24]) ex_events
   = None.
 Proof. reflexivity. Qed.
+
+(* ------------------------------------------------------------------ *)
+(* the result stays within the (scaled) range of the table              *)
+(* ------------------------------------------------------------------ *)
+Lemma normalize_nodes_value nodes a :
+  In a (normalize_nodes nodes) -> exists n, In n nodes /\ snd a = ne n.
+Proof.
+  unfold normalize_nodes. intros H. apply in_map_iff in H.
+  destruct H as (n & <- & Hn). exists n. split; auto.
+Qed.
+
+Theorem result_within_lut_range :
+  forall (tri : list pt -> list triangle) (delta : feat -> Q -> Q -> Q)
+         (L : lut) (S : setup) (v : Q) (ev : event) (e lo hi : Q),
+    lut_ok L -> setup_ok S -> 0 <= v ->
+    0 <= s_fr S ->
+    (forall n, In n (l_nodes L) -> lo <= ne n <= hi) ->
+    route_scalar tri delta L S v [ev] = [Some e] ->
+    lo * emod_factor (l_cw L) (s_cw S) (l_fr L) (s_fr S) (l_visc L) v <= e
+    /\ e <= hi * emod_factor (l_cw L) (s_cw S) (l_fr L) (s_fr S) (l_visc L) v.
+Proof.
+  intros tri delta L S v ev e lo hi HL HS Hv Hf Hr E.
+  destruct (finite_is_scaled_interpolation tri delta L S v ev e HL HS E)
+    as (t & Hin & Hc & He).
+  set (k := emod_factor (l_cw L) (s_cw S) (l_fr L) (s_fr S) (l_visc L) v) in *.
+  assert (Hk : 0 <= k).
+  { unfold k, emod_factor, cube, Qdiv.
+    pose proof (Qinv_pos _ (ok_fr L HL)). pose proof (Qinv_pos _ (ok_visc L HL)).
+    pose proof (Qinv_pos _ HS). pose proof (ok_cw L HL).
+    repeat apply Qmult_le_0_compat; auto; apply Qlt_le_weak; auto. }
+  unfold contains in Hc. unfold value_in in He.
+  destruct (tri_nodes (spec_nn L) t) as [[[a b] c]|] eqn:T; [|discriminate].
+  destruct t as [[i j] k0]. unfold tri_nodes, get in T.
+  destruct (nth_error (spec_nn L) (N.to_nat i)) eqn:Ei; [|discriminate].
+  destruct (nth_error (spec_nn L) (N.to_nat j)) eqn:Ej; [|discriminate].
+  destruct (nth_error (spec_nn L) (N.to_nat k0)) eqn:Ek; [|discriminate].
+  inversion T; subst n n0 n1. clear T.
+  apply nth_error_In in Ei, Ej, Ek. unfold spec_nn in Ei, Ej, Ek.
+  destruct (normalize_nodes_value _ _ Ei) as (na & Ia & Va).
+  destruct (normalize_nodes_value _ _ Ej) as (nb & Ib & Vb).
+  destruct (normalize_nodes_value _ _ Ek) as (nc & Ic & Vc).
+  pose proof (Hr _ Ia) as [La Ua]. pose proof (Hr _ Ib) as [Lb Ub].
+  pose proof (Hr _ Ic) as [Lc Uc].
+  rewrite <- Va in La, Ua. rewrite <- Vb in Lb, Ub. rewrite <- Vc in Lc, Uc.
+  pose proof (interp_between _ _ _ _ _ _ _ lo hi Hc La Lb Lc Ua Ub Uc) as [B1 B2].
+  rewrite He. split.
+  - apply Qmult_le_compat_r; auto.
+  - apply Qmult_le_compat_r; auto.
+Qed.
+
+(* the specification depends on the numbers, not on their representation
+   as fractions: equal events give identical results *)
+Theorem spec_emod_compat :
+  forall (tri : list pt -> list triangle) (delta : feat -> Q -> Q -> Q)
+         (L : lut) (S : setup) (v : Q) (ev ev' : event),
+    (forall f px x x', x == x' -> delta f px x == delta f px x') ->
+    fst ev == fst ev' -> snd ev == snd ev' ->
+    spec_emod tri delta L S v ev = spec_emod tri delta L S v ev'.
+Proof.
+  intros tri delta L S v ev ev' Hd Hx Hy. rewrite !spec_emod_unfold.
+  assert (E1 : normq (spec_x L S ev) (lmax (map nx (l_nodes L)))
+               = normq (spec_x L S ev') (lmax (map nx (l_nodes L)))).
+  { apply normq_compat. unfold spec_x. now rewrite Hx. }
+  assert (E2 : normq (pxcorr delta (l_feat L) (s_px S) (fst ev) (snd ev))
+                     (lmax (map nd (l_nodes L)))
+               = normq (pxcorr delta (l_feat L) (s_px S) (fst ev') (snd ev'))
+                       (lmax (map nd (l_nodes L)))).
+  { apply normq_compat. unfold pxcorr. destruct (Qeq_bool (s_px S) 0); auto.
+    rewrite Hy. rewrite (Hd (l_feat L) (s_px S) _ _ Hx). reflexivity. }
+  now rewrite E1, E2.
+Qed.
